@@ -316,6 +316,30 @@ def _count_sccs(g):
     return len(comps)
 
 
+# functions whose mechanical mutants are swept in the thorough tier (coverage evidence, see sa/mutate.py)
+MUTATION_SCOPE = ['parser:read_shifted_comment',
+                  'parser:read_sys_comment',
+                  'parser:skip_space',
+                  'parser:skip',
+                  'parser:read_num',
+                  'parser:read_char',
+                  'parser:read_sym',
+                  'parser:read_op',
+                  'parser:read_string',
+                  'parser:read_list',
+                  'parser:kg_read',
+                  'parser:kg_read_array',
+                  'parser:read_cond',
+                  'parser:peek_adverb',
+                  'parser:read_expr_array',
+                  'parser:cexpect',
+                  'interpreter:KlongInterpreter.prog',
+                  'interpreter:KlongInterpreter._expr',
+                  'interpreter:KlongInterpreter._factor',
+                  'interpreter:KlongInterpreter._read_fn_args',
+                  'interpreter:KlongInterpreter._apply_adverbs',
+                  'interpreter:KlongInterpreter.parse_module']
+
 SEEDS = [
     Seed("comment-guard-dropped", "fault", "parser", "        while a and t[i+j+1:].startswith(a):", "        while t[i+j+1:].startswith(a):", rule="C12-R1"),
     Seed("skip-space-no-advance", "fault", "parser", "    while i < len(t) and (t[i].isspace() and (ignore_newline or t[i] != '\\n')):\n        i += 1\n    return i",
